@@ -33,6 +33,10 @@ impl<'a> Paseto<'a, V3, Local> {
         //get footer
 
         let decoded_payload = Self::parse_raw_token(token, footer, &V3::default(), &Local::default())?;
+        //the decoded payload must at least hold the nonce and the tag
+        if decoded_payload.len() < 80 {
+            return Err(PasetoError::IncorrectSize);
+        }
         let nonce = Key::from(&decoded_payload[..32]);
         let nonce = PasetoNonce::<V3, Local>::from(&nonce);
 
